@@ -74,6 +74,10 @@ pub fn big_mesh(kind: BigKind, a: usize, b: usize) -> M {
 #[derive(Serialize, Deserialize, Clone, Debug)]
 pub enum Step {
     Append(M),
+    /// append a mesh that was built with `Mesh::new_with_options(.., merge_duplicates,
+    /// delete_degenerate, None)`; the mesh itself is clean (the options change nothing in it), and
+    /// the options of the appended mesh must not reach the faces of the receiver
+    AppendBuilt(M, bool, bool),
     Transform(Pose),
     /// continue with a clone of the mesh (the original is dropped)
     CloneAndContinue,
@@ -324,7 +328,7 @@ fn history_stage(mesh: &M, steps: &[Step], k: usize) -> M {
     let mut m = mesh.clone();
     for s in &steps[..k] {
         match s {
-            Step::Append(o) => m = union(&m, o, None),
+            Step::Append(o) | Step::AppendBuilt(o, _, _) => m = union(&m, o, None),
             Step::Transform(p) => m = p.apply_mesh(&m),
             Step::CloneAndContinue => {}
             Step::ForkAppend(a, _) => m = union(&m, a, None),
@@ -346,7 +350,16 @@ fn gen_history(rng: &mut Rng) -> Sc {
                 // far away from everything so far, so that all positions stay distinct
                 translate(&mut c, [reach * 4.0, rng.uniform(-1.0, 1.0), rng.uniform(-1.0, 1.0)]);
                 reach = reach * 4.0 + c.size() + 2.0;
-                steps.push(Step::Append(c));
+                if rng.chance(0.3) {
+                    // a clean quad built with clean-up options of its own
+                    let o = c.v[0];
+                    let s = rng.uniform(0.5, 2.0);
+                    let quad = M { v: vec![o, [o[0] + s, o[1], o[2]], [o[0] + s, o[1] + s, o[2]], [o[0], o[1] + s, o[2]]], f: vec![[0, 1, 2], [0, 2, 3]] };
+                    let (merge, delete) = *rng.pick(&[(true, false), (false, true), (true, true)]);
+                    steps.push(Step::AppendBuilt(quad, merge, delete));
+                } else {
+                    steps.push(Step::Append(c));
+                }
             }
             2 => steps.push(Step::Transform(Pose::random(rng, 3.0))),
             _ if rng.chance(0.5) => {
@@ -1120,6 +1133,16 @@ impl Property for C12 {
                             let other = to_mesh(o);
                             sim.op("Mesh::append", 1_000_000, || me.append(&other).map_err(|e| e.to_string())).map(|_| ())
                         }
+                        Step::AppendBuilt(o, merge, delete) => {
+                            let verts: Vec<Point3> = o.v.iter().map(|p| Point3::new(p[0], p[1], p[2])).collect();
+                            let other = match sim.op("Mesh::new_with_options", 1_000_000, || Mesh::new_with_options(verts, o.f.clone(), false, *merge, *delete, None).map_err(|e| e.to_string())) {
+                                OpResult::Done(Ok(m)) => m,
+                                OpResult::Done(Err(e)) => return Obs::Construct(format!("new_with_options refused a clean quad: {}", e)),
+                                OpResult::Panic(m) => return Obs::Construct(m),
+                                OpResult::Budget(_) => return Obs::Construct("budget".into()),
+                            };
+                            sim.op("Mesh::append", 1_000_000, || me.append(&other).map_err(|e| e.to_string())).map(|_| ())
+                        }
                         Step::Transform(p) => {
                             let iso = pose_to_iso(p);
                             sim.op("Mesh::transform", 1_000_000, || me.transform(&iso))
@@ -1585,6 +1608,7 @@ impl Property for C12 {
                     && mesh.in_domain()
                     && steps.iter().all(|s| match s {
                         Step::Append(o) => !o.f.is_empty() && o.in_domain(),
+                        Step::AppendBuilt(o, _, _) => o.f.len() == 2 && o.v.len() == 4 && o.in_domain() && o.has_distinct_positions(),
                         Step::ForkAppend(a, b) => !a.f.is_empty() && a.in_domain() && !b.f.is_empty() && b.in_domain() && b.has_distinct_positions(),
                         _ => true,
                     })
